@@ -271,7 +271,9 @@ func ParseNextProto(protoConf string) (proto string, params NextProtosParams, er
 func parseProtoParams(protoConf string) (params NextProtosParams, err error) {
 	params = GetDefaultNextProtosParams()
 
-	conf, err := url.ParseQuery(protoConf)
+	// parameters are separated by ';', which url.ParseQuery no longer accepts
+	// as a separator since go1.17
+	conf, err := url.ParseQuery(strings.Replace(protoConf, ";", "&", -1))
 	if err != nil {
 		return params, fmt.Errorf("invalid proto params: %s", protoConf)
 	}
